@@ -36,10 +36,15 @@ type config struct {
 	suite  uint16
 	auth   bool
 	resume bool
+	sni    bool // the server chooses its configuration (certificates) by SNI through GetConfigForClient
 }
 
 func (c config) String() string {
-	return fmt.Sprintf("stack=%s suite=%04x auth=%d resume=%d", c.stack, c.suite, b2i(c.auth), b2i(c.resume))
+	s := fmt.Sprintf("stack=%s suite=%04x auth=%d resume=%d", c.stack, c.suite, b2i(c.auth), b2i(c.resume))
+	if c.sni {
+		s += " sni=1"
+	}
+	return s
 }
 func (c config) ecdhe() bool { return c.suite == tlcp.ECDHE_SM4_GCM_SM3 || c.suite == tlcp.ECDHE_SM4_CBC_SM3 }
 
@@ -127,7 +132,8 @@ func certsHash(ders [][]byte) string {
 }
 
 // tlcpConfigs builds the two configurations of a case (fresh session caches).
-func tlcpConfigs(cf config) (*tlcp.Config, *tlcp.Config, *[]uint8, *[]uint8) {
+func tlcpConfigs(cf config) (*tlcp.Config, *tlcp.Config, *[]uint8, *[]uint8, *bool) {
+	usedB := new(bool)
 	s := pki.Std()
 	var calerts, salerts []uint8
 	var mu sync.Mutex
@@ -151,12 +157,26 @@ func tlcpConfigs(cf config) (*tlcp.Config, *tlcp.Config, *[]uint8, *[]uint8) {
 	if cf.resume {
 		scfg.SessionCache = tlcp.NewLRUSessionCache(8)
 	}
-	return ccfg, scfg, &calerts, &salerts
+	if cf.sni {
+		// virtual hosting: "test.example" is served by this configuration, every other name by
+		// a second identity (valid for the same names, so that a verifying client accepts it)
+		other := scfg.Clone()
+		other.Certificates = []tlcp.Certificate{pair.TCert(s.Srv2Sig), pair.TCert(s.Srv2Enc)}
+		other.GetConfigForClient = nil
+		scfg.GetConfigForClient = func(chi *tlcp.ClientHelloInfo) (*tlcp.Config, error) {
+			if chi.ServerName == "test.example" {
+				return nil, nil
+			}
+			*usedB = true
+			return other, nil
+		}
+	}
+	return ccfg, scfg, &calerts, &salerts, usedB
 }
 
 // runTLCP runs one handshake pair through the MITM network.
 func runTLCP(cf config, ed edit) outcome {
-	ccfg, scfg, calerts, salerts := tlcpConfigs(cf)
+	ccfg, scfg, calerts, salerts, usedB := tlcpConfigs(cf)
 	if cf.resume {
 		// prime both caches with an untampered full handshake
 		n0 := newNet(edit{kind: "none"})
@@ -225,6 +245,9 @@ func runTLCP(cf config, ed edit) outcome {
 	// views
 	sd := pki.Std()
 	srvCerts := certsHash([][]byte{sd.SrvSig.DER, sd.SrvEnc.DER})
+	if *usedB {
+		srvCerts = certsHash([][]byte{sd.Srv2Sig.DER, sd.Srv2Enc.DER})
+	}
 	cliCerts := "-"
 	if cf.auth || cf.ecdhe() {
 		cliCerts = certsHash([][]byte{sd.CliSig.DER, sd.CliEnc.DER})
@@ -328,6 +351,12 @@ func describe(n *mnet, cf config, dtls bool) string {
 		return fmt.Sprintf("rtype=%s msg=%s field=%s orig=%02x", fm.rtype, fm.msg, fm.at(ed.off), n.orig)
 	case "trunc":
 		return fmt.Sprintf("rtype=%s msg=%s field=%s len=%d", fm.rtype, fm.msg, fm.at(ed.off), len(n.target))
+	case "setlen":
+		name := fm.at(ed.off)
+		if !n.applied {
+			name = "beyond:" + name
+		}
+		return fmt.Sprintf("rtype=%s msg=%s field=%s old=%d new=%d", fm.rtype, fm.msg, name, n.lenOld, n.lenNew)
 	}
 	return fmt.Sprintf("rtype=%s msg=%s field=-", fm.rtype, fm.msg)
 }
@@ -376,6 +405,44 @@ func layout(n *mnet, dtls bool) string {
 	return one(n.seen[dirC2S]) + "/" + one(n.seen[dirS2C])
 }
 
+// sameKind counts the honest records of direction d that carry the same thing as the edited
+// record (same record type and epoch, same first handshake message type when in the clear):
+// 1 = the edited record was never retransmitted.
+func sameKind(n *mnet, d int, dtls bool) int {
+	n.mu.Lock()
+	defer n.mu.Unlock()
+	t := n.target
+	if t == nil {
+		return 0
+	}
+	hl := 5
+	if dtls {
+		hl = 13
+	}
+	key := func(b []byte) string {
+		if len(b) < hl {
+			return "short"
+		}
+		k := fmt.Sprintf("%d", b[0])
+		if dtls {
+			k += fmt.Sprintf(".%d.%d", b[3], b[4])
+			if b[0] == 22 && b[3] == 0 && b[4] == 0 && len(b) > hl {
+				k += fmt.Sprintf(".%d", b[hl])
+			}
+		} else if b[0] == 22 && len(b) > hl {
+			k += fmt.Sprintf(".%d", b[hl])
+		}
+		return k
+	}
+	cnt := 0
+	for _, r := range n.seen[d] {
+		if key(r.raw) == key(t) {
+			cnt++
+		}
+	}
+	return cnt
+}
+
 // ---------------------------------------------------------------------------- cases
 
 type job struct {
@@ -390,6 +457,8 @@ func (j job) ident() string {
 	case "none":
 	case "flip":
 		s += fmt.Sprintf(" dir=%s rec=%d off=%d mask=%02x", dirName(j.ed.dir), j.ed.rec, j.ed.off, j.ed.mask)
+	case "setlen":
+		s += fmt.Sprintf(" dir=%s rec=%d off=%d w=%d op=%s", dirName(j.ed.dir), j.ed.rec, j.ed.off, j.ed.w, j.ed.op)
 	case "trunc":
 		s += fmt.Sprintf(" dir=%s rec=%d off=%d", dirName(j.ed.dir), j.ed.rec, j.ed.off)
 	case "inject":
@@ -415,6 +484,9 @@ func parseJob(desc string) (job, bool) {
 	j.cf.suite = uint16(v)
 	j.cf.auth = hx.KVInt(desc, "auth") == 1
 	j.cf.resume = hx.KVInt(desc, "resume") == 1
+	j.cf.sni = hx.KVInt(desc, "sni") == 1
+	j.ed.w = hx.KVInt(desc, "w")
+	j.ed.op, _ = hx.KV(desc, "op")
 	j.ed.kind, _ = hx.KV(desc, "edit")
 	if d, _ := hx.KV(desc, "dir"); d == "s2c" {
 		j.ed.dir = dirS2C
@@ -429,14 +501,14 @@ func parseJob(desc string) (job, bool) {
 	return j, j.ed.kind != ""
 }
 
-// negoOf extracts vers.suite.alpn.resumed from a view string.
+// negoOf extracts vers.suite.alpn.resumed.servercerts from the client's view string.
 func negoOf(view string) string {
 	p := strings.Split(view, ".")
 	if len(p) < 9 {
 		return "-"
 	}
 	alpn := strings.Join(p[3:len(p)-5], ".")
-	return p[0] + "." + p[1] + "." + alpn + "." + p[len(p)-5]
+	return p[0] + "." + p[1] + "." + alpn + "." + p[len(p)-5] + "." + p[len(p)-2]
 }
 
 var baseMu sync.Mutex
@@ -500,6 +572,9 @@ func run(j job) (string, string) {
 	if j.ed.kind == "none" {
 		obs += " lay=" + o.lay
 	}
+	if (j.ed.kind == "flip" || j.ed.kind == "setlen") && o.net != nil {
+		obs += fmt.Sprintf(" same=%d", sameKind(o.net, j.ed.dir, j.cf.stack == "dtlcp"))
+	}
 	return id, obs
 }
 
@@ -518,6 +593,8 @@ func configs(stack string) []config {
 			}
 		}
 	}
+	// virtual hosting by SNI (GetConfigForClient): one configuration per stack
+	out = append(out, config{stack: stack, suite: tlcp.ECC_SM4_GCM_SM3, sni: true})
 	return out
 }
 
@@ -544,9 +621,29 @@ func generate(cf config, base outcome, tier string, rnd *hx.Rand) []job {
 			} else {
 				offs = fm.boundaryOffsets(len(r.raw))
 			}
+			if fm.rtype == "ccs" {
+				// every byte of a ChangeCipherSpec record, and its body with many values
+				offs = offs[:0]
+				for o := 0; o < len(r.raw); o++ {
+					offs = append(offs, o)
+				}
+			}
 			for _, o := range offs {
-				for _, m := range masks {
+				ms := masks
+				if fm.rtype == "ccs" && o >= n.hdrLen {
+					ms = []byte{0x01, 0x02, 0x03, 0x04, 0x08, 0x10, 0x20, 0x40, 0x80, 0xFE, 0xFF}
+				}
+				for _, m := range ms {
 					jobs = append(jobs, job{cf: cf, ed: edit{kind: "flip", dir: d, rec: i, off: o, mask: m}})
+				}
+			}
+			// arithmetic perturbation of every length field
+			for _, f := range fm.fields {
+				if !strings.HasSuffix(f.name, "length") || f.end-f.start > 3 {
+					continue
+				}
+				for _, op := range []string{"p1", "m1", "p2", "m2", "zero", "max"} {
+					jobs = append(jobs, job{cf: cf, ed: edit{kind: "setlen", dir: d, rec: i, off: f.start, w: f.end - f.start, op: op}})
 				}
 			}
 			jobs = append(jobs, job{cf: cf, ed: edit{kind: "drop", dir: d, rec: i}})
